@@ -378,6 +378,9 @@ func (c *config) WriteBackendMaps() error {
 					pathsDefaultHostMap.AddHostnamePathMapping(hatypes.DefaultHost, p, path.ID)
 				} else {
 					pathsMap.AddHostnamePathMapping(path.Hostname(), p, path.ID)
+					// requests also come in using the aliases of the hostname,
+					// whose path based configurations are the same
+					pathsMap.AddAliasPathMapping(h.Alias, p, path.ID)
 				}
 			}
 			backend.PathsMap = pathsMap
